@@ -73,7 +73,8 @@ PROJS = ['TAN', 'SIN']
 ROTS = [0.0, 30.0, 137.0, -90.0, 200.0]
 SCALES = [1e-3, 1e-5, 1e-2]
 FRAME_NAMES = ['icrs', 'fk5', 'galactic', 'fk5_j1975']
-CRVALS = [(40.0, 20.0), (0.0, 0.0), (266.0, -29.0), (120.0, 80.0)]
+# (10, 84): with the coarsest scale the centres 250 px away reach latitudes above 85 deg (the reference stays below, as stated)
+CRVALS = [(40.0, 20.0), (0.0, 0.0), (266.0, -29.0), (120.0, 80.0), (10.0, 84.0), (300.0, -84.0)]
 OFFSETS = [(0.0, 0.0), (30.0, -40.0), (250.0, 150.0)]
 ANGLES = [0.0, 33.0, 90.0, 120.0, -45.0]
 NPIX = [1.0, 3.0, 10.0, 50.0]
@@ -112,6 +113,13 @@ def wcs_specs(tier, seed):
                             elif (ip + ir + isc + ifr + icv) % 3 == 0:
                                 ws['latfirst'] = True      # latitude on the first world axis (CTYPE1 = DEC-- / GLAT-)
                             out.append(ws)
+    if tier == 'quick':
+        # whatever the seed pairs up: the coarsest scale with the high-latitude reference value is always present
+        for proj in PROJS:
+            for rot in ROTS[:2]:
+                ws = W.wspec(proj, rot, max(SCALES), False, 'icrs', CRVALS[4])
+                if ws not in out:
+                    out.append(ws)
     return out
 
 
